@@ -490,6 +490,11 @@ func (c04) Plan(tier string, seed int64) []core.Scenario {
 		// while to decode: whatever the server answers, it must have executed the handler for it
 		out = append(out, core.Scenario{Kind: "cancelled-big", Seed: seed*41 + int64(i), N: map[string]int{"mb": 2 + i%2, "noise": i % 3}, S: map[string]string{}})
 	}
+	// notifications whose caller releases its context as soon as the call has returned (ctx, cancel := ...;
+	// defer cancel()): a notification that was reported sent executes exactly once
+	for i, tr := range []string{"http", "ws", "http", "custom"} {
+		out = append(out, core.Scenario{Kind: "note-then-cancel", Seed: seed*43 + int64(i), N: map[string]int{"n": 60, "noise": i % 3}, S: map[string]string{"transport": tr}})
+	}
 	for i := 0; i < cuts; i++ {
 		out = append(out, core.Scenario{Kind: "httpcut", Seed: seed*31 + int64(i), N: map[string]int{"dir": i % 2, "after": 1 + (i/2)*13%400, "fk": i % 3}, S: map[string]string{}})
 	}
@@ -512,6 +517,8 @@ func (c04) Run(sc core.Scenario) core.Result {
 		c02{}.bigMix(sc, r4)
 	case "cancelled-big":
 		runCancelledBig04(sc, r4)
+	case "note-then-cancel":
+		runNoteThenCancel04(sc, r4)
 	default:
 		runFault(sc, r3, r4)
 	}
@@ -904,4 +911,69 @@ func runHealingStall(sc core.Scenario, r *core.R) {
 	r.Key("healing-stall", true)
 	r.Obs("calls", 3)
 	r.Sample(map[string]interface{}{"scenario": where, "big_call_error": errStr(big.Err), "redials": env.Px.Accepts() - accBefore})
+}
+
+// runNoteThenCancel04: every notification is made with its own context, which the caller cancels the moment
+// the call has returned (the usual defer cancel()). On a healthy connection each notification that returned
+// nil must have executed exactly once.
+func runNoteThenCancel04(sc core.Scenario, r *core.R) {
+	tr := sc.Str("transport")
+	env := NewEnv(EnvOpt{NoProxy: true})
+	defer env.Shutdown()
+	defer noisePolicy(sc).Install()()
+	var cl *Client
+	var err error
+	if tr == "custom" {
+		cl = &Client{}
+		var closer jsonrpc.ClientCloser
+		closer, err = jsonrpc.NewCustomClient("S", []interface{}{&cl.Client}, customDo(env.RPC))
+		if err == nil {
+			defer closer()
+		}
+	} else {
+		cl, err = env.NewClient(ClientOpt{Transport: tr})
+	}
+	if err != nil {
+		r.Inconclusive("client: %v", err)
+		return
+	}
+	n := sc.I("n")
+	var toks []string
+	sent := 0
+	for i := 0; i < n; i++ {
+		t := Tok("n")
+		ctx, cancel := context.WithCancel(context.Background())
+		err := cl.Note(ctx, t)
+		cancel()
+		if err != nil {
+			r.Violate("notification-failed", "%s: notification %s on a healthy connection returned %v", tr, t, err)
+			continue
+		}
+		sent++
+		toks = append(toks, t)
+	}
+	// a round trip behind the notifications, then a bounded wait for stragglers
+	p := Tok("p")
+	cl.Echo(context.Background(), p, "")
+	lost, multi := 0, 0
+	deadline := time.Now().Add(core.Grace)
+	for _, t := range toks {
+		for env.Svc.Enters(t) == 0 && time.Now().Before(deadline) {
+			time.Sleep(time.Millisecond)
+		}
+		switch k := env.Svc.Enters(t); {
+		case k == 0:
+			lost++
+			if lost <= 2 {
+				r.Violate("notification-not-executed", "%s: notification %s returned nil to its caller (who then released the context) but its handler never ran", tr, t)
+			}
+		case k > 1:
+			multi++
+			r.Violate("multi-exec:note", "%s: notification %s executed %d times", tr, t, k)
+		}
+	}
+	r.Key(fmt.Sprintf("note-then-cancel %s", tr), sent > 0)
+	r.Obs("notifications", int64(sent))
+	r.Obs("notifications_lost", int64(lost))
+	r.Sample(map[string]interface{}{"scenario": "notification whose context is released right after the call returned", "transport": tr, "sent": sent, "executed_once": sent - lost - multi})
 }
